@@ -1,5 +1,6 @@
 (* C04 -- layout is homogeneous under uniform scaling of all lengths.  Statements only; proofs in Proofs/ScalePrim.v,
-   Proofs/ScaleProofs.v, Proofs/ScaleAbsProofs.v, Proofs/FlexFractionProofs.v, Proofs/ScaleNotes.v.
+   Proofs/ScaleProofs.v, Proofs/ScaleAbsProofs.v, Proofs/FlexFractionProofs.v, Proofs/ScaleNotes.v, and for the container
+   kernels Proofs/ScaleKit.v, Proofs/ScaleFlex.v, Proofs/ScaleBlock.v, Proofs/ScaleGrid.v.
 
    Numbers: XQ (exact rationals + infinities + NaN), scale factor k > 0.  Vocabulary (Model/ScaleBase.v, Model/Scale.v,
    Model/ScaleAbs.v):
@@ -16,8 +17,15 @@
    and the root layout of a one-node tree (Model/Leaf.v, Model/Root.v: the kernels tied to the code by the C19
    correspondence); the three absolutely-positioned kernels incl. their style resolution (Model/AbsPos.v over the
    regenerated Gen/AbsPosGen.v: C11 correspondence).  What is refuted: pixel rounding, the cache's is_roughly_equal, the
-   grid THRESHOLD comparison, and the flex intrinsic main-size step (known findings).  The flex / grid / block container
-   algorithms as wholes are covered by the implementation-side oracle only (notes/C04.md). *)
+   grid THRESHOLD comparison, and the flex intrinsic main-size step (known findings).
+   Container kernels (second half of this file): flex resolve_flexible_lengths / distribute_remaining_free_space /
+   line_positions (Model/Flex.v: C07 correspondence); block margin sets, generate_item_list, the in-flow loop with the
+   children's LayoutOutputs as scaled oracle values, compute_inner's decisions invariant (Model/Block.v: C10
+   correspondence); grid track counts, track initialisation, find_size_of_fr, expand_flexible_tracks,
+   stretch_auto_tracks, align_tracks, and distribute_space_up_to_limits / maximise_tracks with the THRESHOLD as a length
+   (Model/GridTracks.v: C09 correspondence) -- refuted for the fixed threshold.  What feeds these kernels (flex base
+   sizes / line breaking / cross axis, grid placement and step 11.5, block content-based width) and the engine recursion
+   are covered by the implementation-side oracle only (notes/C04.md). *)
 From Coq Require Import ZArith NArith QArith Bool List.
 From TV Require Import Num.Num Num.QNum Model.ScaleBase Proofs.ScalePrim.
 From TV Require Model.Common Model.Leaf Model.Root Model.Scale Proofs.ScaleProofs.
@@ -345,3 +353,367 @@ Theorem C04_threshold_note :
      Cache.roughly (x_scale k a) (x_scale k b) = Cache.roughly a b).
 Proof. exact (conj roughly_not_invariant (conj threshold_not_invariant (conj threshold_exact roughly_invariant_far))). Qed.
 Print Assumptions C04_threshold_note.
+
+(* ============================================================================================================ *)
+(** * Container kernels.  Each kernel is a Num-generic Gallina model tied to the implementation bit for bit by its own
+      property's correspondence (flex: C07, block: C10, grid tracks: C09), re-run by ./check C04 with its own seed.
+      Statements: related inputs give related outputs; `X_rel k x (X_scale k x)` holds for every x, so each theorem
+      instantiates to f (scale k x) ~ scale k (f x).  Loops are fuelled: the fuel is a function of the number of items /
+      tracks, hence the same on both sides.  No finiteness premise anywhere. *)
+
+From TV Require Gen.FlexGen Model.Flex Model.ScaleFlex Proofs.ScaleFlex.
+From TV Require Gen.BlockGen Model.Block Model.ScaleBlock Proofs.ScaleBlock.
+From TV Require Gen.GridTracksGen Model.GridTracks Model.ScaleGrid Proofs.ScaleGrid.
+
+(* ------------------------------------------------------------------------------------------------------------ *)
+(** ** Flexbox main axis (Model/Flex.v over the regenerated Gen/FlexGen.v) *)
+Module FlexKernels.
+  Import TV.Gen.FlexGen TV.Model.Flex TV.Model.ScaleFlex TV.Proofs.ScaleKit TV.Proofs.ScaleFlex.
+  Local Open Scope Q_scope.
+
+  (* the three generated tables: sum_axis_gaps and compute_alignment_offset are lengths, the alignment fallback
+     (a decision on `free_space <= 0`) is invariant *)
+  Theorem C04_flex_tables : forall k f f' gap gap' n mode safe rev first, 0 < k -> sc k f f' -> sc k gap gap' ->
+    sc k (sum_axis_gaps gap n) (sum_axis_gaps gap' n) /\
+    apply_alignment_fallback f' n mode safe = apply_alignment_fallback f n mode safe /\
+    sc k (compute_alignment_offset f n gap mode rev first) (compute_alignment_offset f' n gap' mode rev first).
+  Proof.
+    intros k f f' gap gap' n mode safe rev first Hk Hf Hg. split; [|split].
+    - apply (rel_sum_axis_gaps k Hk). exact Hg.
+    - apply (rel_apply_alignment_fallback k Hk). exact Hf.
+    - apply (rel_compute_alignment_offset k Hk); assumption.
+  Qed.
+  Print Assumptions C04_flex_tables.
+
+  (* resolve_flexible_lengths (9.7: freeze inflexible items, then the fuelled freeze / violation loop): same fuel
+     exhaustion behaviour (None / Some), every field of every item related (target sizes, outer target sizes and
+     violations scaled, frozen flags equal) *)
+  Theorem C04_flex_resolve_flexible_lengths : forall k items gap inner_main, 0 < k ->
+    op_rel (items_rel k) (resolve_flexible_lengths items gap inner_main)
+                         (resolve_flexible_lengths (map (item_scale k) items) (x_scale k gap) (opt_scale k inner_main)).
+  Proof.
+    intros k items gap im Hk.
+    apply (resolve_flexible_lengths_homog k Hk); [apply items_rel_scale | apply sc_self | apply op_rel_scale].
+  Qed.
+  Print Assumptions C04_flex_resolve_flexible_lengths.
+  Theorem C04_flex_resolve_flexible_lengths_related : forall k items items' gap gap' im im', 0 < k ->
+    items_rel k items items' -> sc k gap gap' -> op_rel (sc k) im im' ->
+    op_rel (items_rel k) (resolve_flexible_lengths items gap im) (resolve_flexible_lengths items' gap' im').
+  Proof. intros k items items' gap gap' im im' Hk. apply (resolve_flexible_lengths_homog k Hk). Qed.
+  Print Assumptions C04_flex_resolve_flexible_lengths_related.
+
+  (* distribute_remaining_free_space (9.5: auto margins, else justify-content through the generated tables) *)
+  Theorem C04_flex_distribute_remaining_free_space : forall k items gap inner_main justify reverse, 0 < k ->
+    items_rel k (distribute_remaining_free_space items gap inner_main justify reverse)
+                (distribute_remaining_free_space (map (item_scale k) items) (x_scale k gap) (x_scale k inner_main) justify reverse).
+  Proof.
+    intros k items gap im jc rev Hk.
+    apply (distribute_remaining_free_space_homog k Hk); [apply items_rel_scale | apply sc_self | apply sc_self].
+  Qed.
+  Print Assumptions C04_flex_distribute_remaining_free_space.
+
+  (* main-axis locations of the items of a line; the main size each child's layout returned is an oracle value *)
+  Theorem C04_flex_line_positions : forall k main_start reverse l, 0 < k ->
+    Forall2 (sc k) (line_positions main_start reverse l) (line_positions (x_scale k main_start) reverse (map (placed_scale k) l)).
+  Proof. intros k ms rev l Hk. apply (line_positions_homog k); [apply sc_self | apply placed_rel_scale]. Qed.
+  Print Assumptions C04_flex_line_positions.
+
+  (* the composition used by the C07 correspondence: 9.7, then 9.5 on its result, then the locations *)
+  Theorem C04_flex_line : forall k items items' gap gap' im im' justify reverse ms ms' sizes sizes', 0 < k ->
+    items_rel k items items' -> sc k gap gap' -> sc k im im' -> sc k ms ms' -> Forall2 (sc k) sizes sizes' ->
+    op_rel (Forall2 (sc k))
+      (option_map (fun r => line_positions ms reverse (combine (distribute_remaining_free_space r gap im justify reverse) sizes))
+                  (resolve_flexible_lengths items gap (Some im)))
+      (option_map (fun r => line_positions ms' reverse (combine (distribute_remaining_free_space r gap' im' justify reverse) sizes'))
+                  (resolve_flexible_lengths items' gap' (Some im'))).
+  Proof.
+    intros k items items' gap gap' im im' jc rev ms ms' sizes sizes' Hk Hi Hg Him Hms Hsz.
+    eapply rel_option_map; [apply (resolve_flexible_lengths_homog k Hk); eassumption|].
+    intros r r' Hr. apply (line_positions_homog k); [exact Hms|].
+    apply (combine_placed_rel k). apply (distribute_remaining_free_space_homog k Hk); assumption. exact Hsz.
+  Qed.
+  Print Assumptions C04_flex_line.
+End FlexKernels.
+
+(* ------------------------------------------------------------------------------------------------------------ *)
+(** ** Block flow (Model/Block.v over the regenerated Gen/BlockGen.v) *)
+Module BlockKernels.
+  Import TV.Gen.BlockGen TV.Model.Block TV.Model.ScaleBlock TV.Proofs.ScaleKit TV.Proofs.ScaleBlock.
+  Local Open Scope Q_scope.
+
+  (* CollapsibleMarginSet (src/tree/layout.rs, regenerated): every operation *)
+  Theorem C04_block_margin_sets : forall k s s' o o' m m', 0 < k -> bms_rel k s s' -> bms_rel k o o' -> sc k m m' ->
+    bms_rel k ms_ZERO ms_ZERO /\ bms_rel k (ms_from_margin m) (ms_from_margin m') /\
+    bms_rel k (ms_collapse_with_margin s m) (ms_collapse_with_margin s' m') /\
+    bms_rel k (ms_collapse_with_set s o) (ms_collapse_with_set s' o') /\ sc k (ms_resolve s) (ms_resolve s').
+  Proof.
+    intros k s s' o o' m m' Hk Hs Ho Hm. repeat split.
+    all: first [ apply (rel_ms_ZERO k) | apply (rel_ms_from_margin k Hk); assumption
+               | apply (rel_ms_collapse_with_margin k Hk); assumption | apply (rel_ms_collapse_with_set k Hk); assumption
+               | apply (rel_ms_resolve k); assumption ].
+  Qed.
+  Print Assumptions C04_block_margin_sets.
+
+  (* generate_item_list: the children's styles resolved against the container's content box *)
+  Theorem C04_block_generate_item_list : forall k styles inner_size, 0 < k ->
+    Forall2 (bitem_rel k) (generate_item_list styles inner_size)
+                          (generate_item_list (map (bstyle_scale k) styles) (bsz_map (opt_scale k) inner_size)).
+  Proof.
+    intros k sts nis Hk. apply (generate_item_list_homog k Hk); [apply bstyles_rel_scale | apply bsz_rel_scale; apply op_rel_scale].
+  Qed.
+  Print Assumptions C04_block_generate_item_list.
+
+  (* perform_final_layout_on_in_flow_children: the whole loop.  Every child's LayoutOutput is an oracle value of the
+     model and is scaled as well (sizes, content sizes, both margin sets; the collapse-through flag is kept).  Result:
+     every item's location, size, resolved margins, static position, the known dimensions and the available width
+     passed to the child, both collapsed margin sets are scaled; order / in-flow / collapse-through flags are equal;
+     content size, intrinsic height, first / last margin sets of the container are scaled *)
+  Theorem C04_block_inflow : forall k P xs, 0 < k ->
+    binflow_rel k (block_inflow P xs) (block_inflow (bparams_scale k P) (map (bpair_scale k) xs)).
+  Proof. intros k P xs Hk. apply (block_inflow_homog k Hk); [apply bparams_rel_scale | apply bpairs_rel_scale]. Qed.
+  Print Assumptions C04_block_inflow.
+  Theorem C04_block_inflow_related : forall k P P' xs xs', 0 < k ->
+    bparams_rel k P P' -> Forall2 (bpair_rel k) xs xs' -> binflow_rel k (block_inflow P xs) (block_inflow P' xs').
+  Proof. intros k P P' xs xs' Hk. apply (block_inflow_homog k Hk). Qed.
+  Print Assumptions C04_block_inflow_related.
+
+  (* compute_inner's decisions are INVARIANT: which of the container's margins collapse with its children's, whether
+     its style prevents it from being collapsed through, and whether it can be collapsed through *)
+  Theorem C04_block_decisions_invariant : forall k st inp rs rs', 0 < k -> Forall2 (bres_rel k) rs rs' ->
+    block_own_collapse (bstyle_scale k st) (binput_scale k inp) = block_own_collapse st inp /\
+    block_prevent_ct (bstyle_scale k st) (binput_scale k inp) = block_prevent_ct st inp /\
+    block_can_collapse_through (bstyle_scale k st) (binput_scale k inp) rs' = block_can_collapse_through st inp rs.
+  Proof.
+    intros k st inp rs rs' Hk Hrs. pose proof (bstyle_rel_scale k st) as Hst. pose proof (binput_rel_scale k inp) as Hin.
+    split; [|split].
+    - apply (block_own_collapse_invariant k Hk); assumption.
+    - apply (block_prevent_ct_invariant k Hk); assumption.
+    - apply (block_can_collapse_through_invariant k Hk); assumption.
+  Qed.
+  Print Assumptions C04_block_decisions_invariant.
+
+  (* ... and its lengths are scaled: the loop constants derived from the style, the content box handed to the items,
+     the outer height from the intrinsic height, the two margin sets of the container's LayoutOutput *)
+  Theorem C04_block_compute_inner : forall k st st' inp inp' w w' h h' io io', 0 < k ->
+    bstyle_rel k st st' -> binput_rel k inp inp' -> sc k w w' -> sc k h h' -> binflow_rel k io io' ->
+    bparams_rel k (block_params st inp w) (block_params st' inp' w') /\
+    bsz_rel (op_rel (sc k)) (block_node_inner_size st inp) (block_node_inner_size st' inp') /\
+    sc k (block_outer_height st inp h) (block_outer_height st' inp' h') /\
+    bms_rel k (fst (block_output_margins st inp io)) (fst (block_output_margins st' inp' io')) /\
+    bms_rel k (snd (block_output_margins st inp io)) (snd (block_output_margins st' inp' io')).
+  Proof.
+    intros k st st' inp inp' w w' h h' io io' Hk Hst Hin Hw Hh Hio. split; [|split; [|split]].
+    - apply (block_params_homog k Hk); assumption.
+    - apply (block_node_inner_size_homog k Hk); assumption.
+    - apply (block_outer_height_homog k Hk); assumption.
+    - apply (block_output_margins_homog k Hk); assumption.
+  Qed.
+  Print Assumptions C04_block_compute_inner.
+
+  (* the composition compute_inner performs around the loop (the one the C10 correspondence K2 runs): items from the
+     children's styles, loop constants from the container's style, the loop, then the container's outer height, margin
+     sets and collapse-through flag (block_container, Model/ScaleBlock.v) -- from the container's style, its inputs, its
+     outer width, the children's styles and the children's LayoutOutputs, all scaled *)
+  Theorem C04_block_container : forall k st inp w styles outs, 0 < k ->
+    let r := block_container st inp w styles outs in
+    let r' := block_container (bstyle_scale k st) (binput_scale k inp) (x_scale k w) (map (bstyle_scale k) styles) (map (bout_scale k) outs) in
+    binflow_rel k (fst (fst (fst r))) (fst (fst (fst r'))) /\ sc k (snd (fst (fst r))) (snd (fst (fst r'))) /\
+    bms_rel k (fst (snd (fst r))) (fst (snd (fst r'))) /\ bms_rel k (snd (snd (fst r))) (snd (snd (fst r'))) /\
+    snd r' = snd r.
+  Proof.
+    intros k st inp w styles outs Hk.
+    apply (block_container_homog k Hk); [apply bstyle_rel_scale | apply binput_rel_scale | apply sc_self | apply bstyles_rel_scale | apply bouts_rel_scale].
+  Qed.
+  Print Assumptions C04_block_container.
+End BlockKernels.
+
+(* ------------------------------------------------------------------------------------------------------------ *)
+(** ** Grid tracks (Model/GridTracks.v over the regenerated Gen/GridTracksGen.v) *)
+Module GridKernels.
+  Import TV.Gen.GridTracksGen TV.Model.GridTracks TV.Model.ScaleGrid TV.Proofs.ScaleKit TV.Proofs.ScaleGrid.
+  Import ListNotations.
+  Local Open Scope Q_scope.
+
+  (* compute_explicit_grid_size_in_axis: the number of explicit tracks -- in particular the number of repetitions of
+     repeat(auto-fill | auto-fit, ..), floor / ceil of a quotient of two lengths -- is invariant *)
+  Theorem C04_grid_explicit_count : forall k template inner gap size_is_maximum, 0 < k ->
+    explicit_grid_size (map (tsf_scale k) template) (opt_scale k inner) (sfn_scale k gap) size_is_maximum
+    = explicit_grid_size template inner gap size_is_maximum.
+  Proof.
+    intros k tpl inner gap mx Hk.
+    apply (explicit_grid_size_invariant k Hk); [apply Forall2_self; apply tsf_rel_scale | apply op_rel_scale | apply sfn_rel_scale].
+  Qed.
+  Print Assumptions C04_grid_explicit_count.
+
+  (* initialize_grid_tracks (structure of the track vector) and initialize_track_sizes (11.4) *)
+  Theorem C04_grid_initialize_tracks : forall k counts template autos gap has_items inner, 0 < k ->
+    tracks_rel k (initialize_grid_tracks counts template autos gap has_items)
+                 (initialize_grid_tracks counts (map (tsf_scale k) template) (map (nrt_scale k) autos) (sfn_scale k gap) has_items) /\
+    tracks_rel k (initialize_track_sizes inner (initialize_grid_tracks counts template autos gap has_items))
+                 (initialize_track_sizes (opt_scale k inner)
+                    (initialize_grid_tracks counts (map (tsf_scale k) template) (map (nrt_scale k) autos) (sfn_scale k gap) has_items)).
+  Proof.
+    intros k counts tpl autos gap hi inner Hk.
+    assert (H : tracks_rel k (initialize_grid_tracks counts tpl autos gap hi)
+                  (initialize_grid_tracks counts (map (tsf_scale k) tpl) (map (nrt_scale k) autos) (sfn_scale k gap) hi)).
+    { apply (initialize_grid_tracks_homog k); [apply Forall2_self; apply tsf_rel_scale | apply Forall2_self; apply nrt_rel_scale | apply sfn_rel_scale]. }
+    split; [exact H|]. apply (initialize_track_sizes_homog k Hk); [apply op_rel_scale | exact H].
+  Qed.
+  Print Assumptions C04_grid_initialize_tracks.
+
+  (* THE THRESHOLD.  distribute_space_up_to_limits with the threshold as an explicit argument (`_t tau`; `_t threshold` is
+     the model's function, by reflexivity) is homogeneous when the threshold is scaled like a length ... *)
+  Theorem C04_grid_threshold_forms :
+    distribute_space_up_to_limits_t (T := XQ) threshold = distribute_space_up_to_limits /\
+    maximise_tracks_t (T := XQ) threshold = maximise_tracks /\
+    track_sizing_algorithm_t (T := XQ) threshold = track_sizing_algorithm.
+  Proof. repeat split; reflexivity. Qed.
+  Print Assumptions C04_grid_threshold_forms.
+  Theorem C04_grid_distribute_related : forall k tau tau' sp sp' ts ts' aff aff' pr pr' pp pp' lim lim', 0 < k ->
+    sc k tau tau' -> affected_inv k aff aff' -> tfun_dl k pr pr' -> tfun_sc k pp pp' -> tfun_sc k lim lim' ->
+    sc k sp sp' -> tracks_rel k ts ts' ->
+    sc k (fst (distribute_space_up_to_limits_t tau sp ts aff pr pp lim))
+         (fst (distribute_space_up_to_limits_t tau' sp' ts' aff' pr' pp' lim')) /\
+    tracks_rel k (snd (distribute_space_up_to_limits_t tau sp ts aff pr pp lim))
+                 (snd (distribute_space_up_to_limits_t tau' sp' ts' aff' pr' pp' lim')).
+  Proof.
+    intros k tau tau' sp sp' ts ts' aff aff' pr pr' pp pp' lim lim' Hk Ht Ha Hpr Hpp Hlim Hsp Hts.
+    apply (distribute_space_up_to_limits_homog k Hk tau tau' Ht aff aff' pr pr' pp pp' lim lim'); assumption.
+  Qed.
+  Print Assumptions C04_grid_distribute_related.
+  (* ... which for the real, fixed THRESHOLD is the precise statement  dist THRESHOLD (scale k x) ~ scale k (dist (THRESHOLD / k) x):
+     scaling the lengths by k is scaling the threshold by 1 / k (here as maximise_tracks calls it: every track affected,
+     proportion 1, base size against the fit-content-limited growth limit) *)
+  Theorem C04_grid_distribute_threshold : forall k inner sp ts, 0 < k ->
+    let lim := fit_content_limited_growth_limit in
+    let r := distribute_space_up_to_limits_t (Fin (DISTRIBUTE_THRESHOLD_Q / k)) sp ts (fun _ => true) (fun _ => one) base_size (lim inner) in
+    let r' := distribute_space_up_to_limits (x_scale k sp) (map (track_scale k) ts) (fun _ => true) (fun _ => one) base_size
+                                            (lim (opt_scale k inner)) in
+    sc k (fst r) (fst r') /\ tracks_rel k (snd r) (snd r').
+  Proof.
+    intros k inner sp ts Hk lim r r'. subst r r'. change (distribute_space_up_to_limits (T := XQ)) with (distribute_space_up_to_limits_t (T := XQ) threshold).
+    apply (distribute_space_up_to_limits_homog k Hk _ _ (threshold_div_scale k Hk)).
+    - intros t t' _. reflexivity.
+    - intros t t' _. apply dl_refl.
+    - intros t t' Ht. apply Ht.
+    - intros t t' Ht. apply (rel_fit_content_limited_growth_limit k Hk); [apply op_rel_scale | exact Ht].
+    - apply sc_self.
+    - apply tracks_rel_scale.
+  Qed.
+  Print Assumptions C04_grid_distribute_threshold.
+
+  (* maximise_tracks (11.6): the same two statements *)
+  Theorem C04_grid_maximise_related : forall k tau tau' inner inner' a a' ts ts', 0 < k ->
+    sc k tau tau' -> op_rel (sc k) inner inner' -> gavail_rel k a a' -> tracks_rel k ts ts' ->
+    tracks_rel k (maximise_tracks_t tau inner a ts) (maximise_tracks_t tau' inner' a' ts').
+  Proof. intros k tau tau' inner inner' a a' ts ts' Hk. apply (maximise_tracks_homog k Hk). Qed.
+  Print Assumptions C04_grid_maximise_related.
+  Theorem C04_grid_maximise_threshold : forall k inner a ts, 0 < k ->
+    tracks_rel k (maximise_tracks_t (Fin (DISTRIBUTE_THRESHOLD_Q / k)) inner a ts)
+                 (maximise_tracks (opt_scale k inner) (gavail_scale k a) (map (track_scale k) ts)).
+  Proof.
+    intros k inner a ts Hk. change (maximise_tracks (T := XQ)) with (maximise_tracks_t (T := XQ) threshold).
+    apply (maximise_tracks_homog k Hk); [apply threshold_div_scale; exact Hk | apply op_rel_scale | apply gavail_rel_scale | apply tracks_rel_scale].
+  Qed.
+  Print Assumptions C04_grid_maximise_threshold.
+  (* corollary: homogeneous whenever the unscaled run gives the same result with the threshold THRESHOLD / k as with
+     THRESHOLD (e.g. whenever every comparison with the threshold is decided by a margin of more than a factor max(k, 1/k)) *)
+  Theorem C04_grid_maximise_insensitive : forall k inner a ts, 0 < k ->
+    maximise_tracks_t (Fin (DISTRIBUTE_THRESHOLD_Q / k)) inner a ts = maximise_tracks inner a ts ->
+    tracks_rel k (maximise_tracks inner a ts) (maximise_tracks (opt_scale k inner) (gavail_scale k a) (map (track_scale k) ts)).
+  Proof. exact maximise_tracks_insensitive. Qed.
+  Print Assumptions C04_grid_maximise_insensitive.
+  Example C04_grid_insensitive_premise_satisfiable :
+    maximise_tracks_t (Fin (DISTRIBUTE_THRESHOLD_Q / 2)) None (Definite (Fin 1)) [thr_witness_track]
+    = maximise_tracks None (Definite (Fin 1)) [thr_witness_track].
+  Proof. exact insensitive_premise_ok. Qed.
+
+  (* KNOWN FINDING grid-track-threshold-absolute, now on the kernels themselves: with the fixed threshold neither is
+     homogeneous.  Witness: one column minmax(0px, 1px) in a container 1/16 px wide grows to 1/16; at k = 1/8 the free
+     space 1/128 is below 0.01, the loop does not run and the column stays 0 (expected 1/128).  Replayed on the
+     implementation (`vh c09 one`, lib/props/c04.py): column 0.0625 px, scaled 0 px instead of 0.0078125 px. *)
+  Theorem C04_grid_maximise_refuted :
+    (exists k inner a ts, 0 < k /\
+       ~ tracks_rel k (maximise_tracks inner a ts) (maximise_tracks (opt_scale k inner) (gavail_scale k a) (map (track_scale k) ts))) /\
+    (exists k sp ts, 0 < k /\
+       ~ tracks_rel k (snd (distribute_space_up_to_limits sp ts (fun _ => true) (fun _ => one) base_size growth_limit))
+                      (snd (distribute_space_up_to_limits (x_scale k sp) (map (track_scale k) ts) (fun _ => true) (fun _ => one)
+                                                          base_size growth_limit))).
+  Proof. exact (conj maximise_tracks_not_homogeneous distribute_not_homogeneous). Qed.
+  Print Assumptions C04_grid_maximise_refuted.
+  Theorem C04_grid_maximise_witness_values :
+    map (fun t => x_red (base_size t)) (maximise_tracks None (Definite (Fin (1#16))) [thr_witness_track]) = [Fin (1#16)] /\
+    map (fun t => x_red (base_size t))
+        (maximise_tracks (opt_scale (1#8) None) (gavail_scale (1#8) (Definite (Fin (1#16)))) (map (track_scale (1#8)) [thr_witness_track]))
+      = [Fin 0].
+  Proof. exact thr_witness_values. Qed.
+  Print Assumptions C04_grid_maximise_witness_values.
+
+  (* distribute_item_space_to_base_size (11.5.1, as a kernel): both absolute constants (0.01 and 0.000001) as lengths *)
+  Theorem C04_grid_distribute_item_space_threshold : forall k flex use_ff space ts aff aff' ct, 0 < k ->
+    affected_inv k aff aff' ->     (* the `is_affected` closure decides alike on related tracks: it reads kinds / sizing functions *)
+    distribute_item_space_to_base_size_t (T := XQ) threshold base_threshold = distribute_item_space_to_base_size /\
+    tracks_rel k (distribute_item_space_to_base_size_t (Fin (DISTRIBUTE_THRESHOLD_Q / k)) (Fin (BASE_SIZE_THRESHOLD_Q / k))
+                                                        flex use_ff space ts aff growth_limit ct)
+                 (distribute_item_space_to_base_size flex use_ff (x_scale k space) (map (track_scale k) ts) aff' growth_limit ct).
+  Proof.
+    intros k flex uff sp ts aff aff' ct Hk Haff. split; [reflexivity|].
+    change (distribute_item_space_to_base_size (T := XQ)) with (distribute_item_space_to_base_size_t (T := XQ) threshold base_threshold).
+    apply (distribute_item_space_to_base_size_scaled k); assumption.
+  Qed.
+  Print Assumptions C04_grid_distribute_item_space_threshold.
+
+  (* find_size_of_fr (11.7.1, the fuelled restart loop; the hypothetical fr size starts at infinity, a fixed point) *)
+  Theorem C04_grid_find_size_of_fr : forall k ts space, 0 < k ->
+    sc k (find_size_of_fr ts space) (find_size_of_fr (map (track_scale k) ts) (x_scale k space)).
+  Proof. intros k ts sp Hk. apply (find_size_of_fr_homog k Hk); [apply tracks_rel_scale | apply sc_self]. Qed.
+  Print Assumptions C04_grid_find_size_of_fr.
+
+  (* expand_flexible_tracks (11.7): definite, min-content and max-content available space; the max-content
+     contributions of the items crossing flexible tracks are oracle values, scaled too *)
+  Theorem C04_grid_expand_flexible_tracks : forall k axis_min axis_max avail items ts, 0 < k ->
+    tracks_rel k (expand_flexible_tracks axis_min axis_max avail items ts)
+                 (expand_flexible_tracks (opt_scale k axis_min) (opt_scale k axis_max) (gavail_scale k avail)
+                                         (map (fitem_scale k) items) (map (track_scale k) ts)).
+  Proof.
+    intros k mn mx a items ts Hk.
+    apply (expand_flexible_tracks_homog k Hk); [apply op_rel_scale | apply op_rel_scale | apply gavail_rel_scale | apply fitems_rel_scale | apply tracks_rel_scale].
+  Qed.
+  Print Assumptions C04_grid_expand_flexible_tracks.
+
+  (* stretch_auto_tracks (11.8) *)
+  Theorem C04_grid_stretch_auto_tracks : forall k axis_min avail ts, 0 < k ->
+    tracks_rel k (stretch_auto_tracks axis_min avail ts)
+                 (stretch_auto_tracks (opt_scale k axis_min) (gavail_scale k avail) (map (track_scale k) ts)).
+  Proof.
+    intros k mn a ts Hk. apply (stretch_auto_tracks_homog k Hk); [apply op_rel_scale | apply gavail_rel_scale | apply tracks_rel_scale].
+  Qed.
+  Print Assumptions C04_grid_stretch_auto_tracks.
+
+  (* align_tracks (justify-content / align-content: offsets of tracks and gutters) *)
+  Theorem C04_grid_align_tracks : forall k content_box padding border ts style, 0 < k ->
+    tracks_rel k (align_tracks content_box padding border ts style)
+                 (align_tracks (x_scale k content_box) (x_scale k padding) (x_scale k border) (map (track_scale k) ts) style).
+  Proof. intros k cb ps bs ts style Hk. apply (align_tracks_homog k Hk); try apply sc_self. apply tracks_rel_scale. Qed.
+  Print Assumptions C04_grid_align_tracks.
+
+  (* the whole of track_sizing_algorithm (11.4, 11.5 as an ARGUMENT assumed homogeneous, 11.6, 11.7, 11.8) with the
+     threshold of 11.6 scaled along.  PARTIAL as a statement about the real algorithm: step 11.5
+     (resolve_intrinsic_track_sizes, which also calls distribute_space_up_to_limits and has a second absolute
+     threshold 0.000001) is a premise here, not proved. *)
+  Theorem C04_grid_track_sizing_partial : forall k mn mx stretch a inner intr intr' items ts, 0 < k ->
+    (forall x x', tracks_rel k x x' -> tracks_rel k (intr x) (intr' x')) ->
+    tracks_rel k (track_sizing_algorithm_t (Fin (DISTRIBUTE_THRESHOLD_Q / k)) mn mx stretch a inner intr items ts)
+                 (track_sizing_algorithm (opt_scale k mn) (opt_scale k mx) stretch (gavail_scale k a) (opt_scale k inner) intr'
+                                         (map (fitem_scale k) items) (map (track_scale k) ts)).
+  Proof.
+    intros k mn mx stretch a inner intr intr' items ts Hk Hintr.
+    change (track_sizing_algorithm (T := XQ)) with (track_sizing_algorithm_t (T := XQ) threshold).
+    apply (track_sizing_algorithm_homog k Hk); try apply op_rel_scale; try assumption.
+    - apply threshold_div_scale. exact Hk.
+    - apply gavail_rel_scale.
+    - apply fitems_rel_scale.
+    - apply tracks_rel_scale.
+  Qed.
+  Print Assumptions C04_grid_track_sizing_partial.
+End GridKernels.
